@@ -999,7 +999,7 @@ var minimiseBudget = func() time.Duration {
 	return 20 * time.Second
 }()
 
-const hangAfter = 15 * time.Second
+const hangAfter = 45 * time.Second
 
 type crashInfo struct {
 	Idx    int
